@@ -1,6 +1,7 @@
 """C16 -- Basic credentials round trip; the composed field is a single line (scheme, one space, unbroken base64)."""
 from harness.auth_util import (
-	alist, b64_rfc4648, coq_err, coq_pres, coq_res, elem_obs, err_of, header_class, is_escape, oX,
+	ELEM_OBSERVERS, HDRS_OBSERVERS, READERS, TARGETS, alist, b64_rfc4648, coq_err, coq_pres, coq_res, elem_obs, err_of, header_class, is_escape, oX,
+	observe_elem, observe_hdrs, read_all,
 )
 from harness.coqfmt import X
 
@@ -310,6 +311,88 @@ def _gen_reenc(rng, hdrs, schemes, count):
 	return cases
 
 
+# ---------------------------------------------------------------------------------------------------------------------
+# wave-4 strengthening: (7) read-only observers before use, (8) every member of an operator family, (9) metacharacters of
+# neighbouring syntax and reserved names as ordinary data, parameter sets with members the scheme does not use
+
+# (9) metacharacters of the surrounding syntax (credentials a1:a2, header parameters, field lists, URIs, percent and RFC 2047 escapes, folding)
+META = [b':', b'/', b'?', b'#', b'@', b'=', b'&', b';', b',', b'%', b'"', b'\\', b"'", b'+', b' ', b'<', b'>', b'(', b')', b'[', b']', b'{', b'}', b'*', b'|', b'~', b'$', b'!', b'^', b'`',
+	b'%3A', b'%3a', b'%00', b'%25', b'%', b'=?', b'?=', b'==', b'=?utf-8?b?YTpi?=', b'\r\n', b'\r\n ', b', ', b'; ', b'="', b'\\"', b'\\\\', b'"; x="', b'&amp;', b'://', b'@:', b':@', b'/../']
+# reserved / special NAMES of the surrounding code as ordinary data
+NAMES = [b'username', b'password', b'Username', b'PASSWORD', b'basic', b'Basic', b'BASIC', b'digest', b'Digest', b'realm', b'uri', b'nonce', b'response', b'cnonce', b'qop', b'nc',
+	b'algorithm', b'opaque', b'auth', b'auth-int', b'MD5', b'charset', b'_charset_', b'q', b'boundary', b'filename', b'bytes', b'none', b'None', b'null', b'true', b'False',
+	b'Authorization', b'Proxy-Authorization', b'WWW-Authenticate', b'Basic Zm9vOmJhcg==', b'Basic realm="x"', b'Digest username="a"', b'username="a"', b'password=b', b'********', b'*',
+	b'anonymous', b'admin', b'root', b'utf-8', b'UTF-8', b'ISO8859-1', b'value', b'params', b'scheme', b'encoding', b'self', b'__class__', b'%s', b'%r', b'%(password)s', b'{}', b'{0}', b'{password}']
+# parameters the Basic scheme does not use, next to the two it uses: the composed field is base64(user:password) all the same
+EXTRA = [('realm', b'r'), ('charset', b'UTF-8'), ('response', b'0123'), ('cnonce', b'c'), ('nonce', b'n'), ('uri', b'/'), ('qop', b'auth'), ('algorithm', b'MD5'), ('q', b'0.5'),
+	('user', b'other'), ('pass', b'other'), ('Username', b'other'), ('PASSWORD', b'other'), ('username ', b'other'), ('password*', b"utf-8''other"), ('passwd', b''), ('', b'x')]
+OBS_SRC = ['new', 'new', 'parsed', 'create', 'new_text', 'replace']
+OBS_MODES = ['bytes', 'compose', 'str', 'hdr']
+
+
+def _embed(rng, token, pos, colon_ok):
+	a = bytes(rng.choice(b'abXY09') for _ in range(rng.randint(1, 3)))
+	b = bytes(rng.choice(b'abXY09') for _ in range(rng.randint(1, 3)))
+	v = {'alone': token, 'first': token + a, 'last': a + token, 'mid': a + token + b, 'twice': token + a + token, 'double': a + token + token + b}[pos]
+	return v if colon_ok else v.replace(b':', b';')
+
+
+def _gen_wave4(rng, tier, hdrs, schemes):
+	big = tier == 'thorough'
+	cases = []
+	# (9) every metacharacter / escape at every position of the user name and of the password
+	for token in META:
+		for pos in ('alone', 'first', 'last', 'mid', 'twice', 'double'):
+			if not big and pos in ('twice', 'double') and rng.random() < 0.5:
+				continue
+			u, p = _small_cred(rng)
+			cases.append({'k': 'rt', 'hdr': rng.choice(hdrs), 'scheme': 'Basic', 'u': u.hex(), 'p': _embed(rng, token, pos, True).hex()})
+			if b':' not in token:
+				cases.append({'k': 'rt', 'hdr': rng.choice(hdrs), 'scheme': 'Basic', 'u': _embed(rng, token, pos, False).hex(), 'p': (p if rng.random() < 0.6 else _embed(rng, token, pos, True)).hex()})
+	# (9) reserved names as user name, as password, as both
+	for name in NAMES:
+		u, p = _ascii_cred(rng)
+		un = name.replace(b':', b';')
+		for uu, pp in ((un, p), (u, name), (un, name), (un + b'=' + u, name + b':' + name)):
+			cases.append({'k': 'rt', 'hdr': rng.choice(hdrs), 'scheme': rng.choice(schemes), 'u': uu.hex(), 'p': pp.hex()})
+	# (7)+(8) one observer at a time on every kind of target, then combinations
+	plans = []
+	for name in sorted(ELEM_OBSERVERS):
+		for target in ('self', 'copy', 'alias'):
+			plans.append(([name], target, []))
+	for name in sorted(HDRS_OBSERVERS):
+		plans.append(([], 'self', [name]))
+	for _ in range(3000 if big else 260):
+		plans.append((rng.sample(sorted(ELEM_OBSERVERS), rng.randint(1, 4)), rng.choice(TARGETS), rng.sample(sorted(HDRS_OBSERVERS), rng.choice([0, 0, 1, 2]))))
+	for i, (names, target, hnames) in enumerate(plans):
+		r = rng.random()
+		if r < 0.15:
+			u, p = rng.choice(NAMES).replace(b':', b';'), rng.choice(NAMES)
+		elif r < 0.3:
+			u, p = _embed(rng, rng.choice(META), 'mid', False), _embed(rng, rng.choice(META), rng.choice(['alone', 'mid', 'last']), True)
+		elif r < 0.4:
+			u, p = b'user', rng.choice([b'*', b'*******', b'********', b'*********', b'x' * 8, b'', b'secret'])
+		else:
+			u, p = _small_cred(rng)
+		src = OBS_SRC[i % len(OBS_SRC)]
+		c = {'k': 'obs', 'hdr': hdrs[i % len(hdrs)], 'scheme': rng.choice(schemes), 'u': u.hex(), 'p': p.hex(), 'src': src, 'mode': 'hdr' if hnames and not names else OBS_MODES[(i // 2) % len(OBS_MODES)],
+			'target': target, 'obs': names, 'hobs': hnames, 'readers': READERS if i % 3 == 0 else rng.sample(READERS[:-1], 4) + ['pop']}
+		if src == 'new_text':
+			try:
+				c['text'] = [u.decode('utf-8'), p.decode('utf-8')]
+			except UnicodeDecodeError:
+				c['src'] = 'new'
+		if rng.random() < 0.25 and src in ('new', 'create', 'replace'):
+			c['extra'] = [[n, v.hex()] for n, v in rng.sample(EXTRA, rng.randint(1, 3))]
+		cases.append(c)
+	# (9) parameter sets with members the scheme does not use, without any observer: every extra name once
+	for n, v in EXTRA:
+		u, p = _small_cred(rng)
+		cases.append({'k': 'obs', 'hdr': rng.choice(hdrs), 'scheme': rng.choice(schemes), 'u': u.hex(), 'p': p.hex(), 'src': rng.choice(['new', 'create', 'replace']), 'mode': rng.choice(OBS_MODES),
+			'target': 'self', 'obs': [], 'hobs': [], 'readers': READERS, 'extra': [[n, v.hex()]]})
+	return cases
+
+
 def _gen_classes(rng, tier):
 	big = tier == 'thorough'
 	hdrs, names = _registry()
@@ -346,6 +429,7 @@ def _gen_classes(rng, tier):
 	cases.extend(_gen_seq(rng, hdrs, schemes, 4000 if big else 350))
 	# (6) the composed field re-encoded independently (name case, scheme case, white space, folding, neighbours)
 	cases.extend(_gen_reenc(rng, hdrs, schemes, 4000 if big else 300))
+	cases.extend(_gen_wave4(rng, tier, hdrs, schemes))
 	return cases
 
 
@@ -636,6 +720,75 @@ def _observe_reenc(c):
 	return o
 
 
+def _observe_obs(c):
+	"""(7) an element / header block that was LOOKED AT before it is used, (8) every way of reading a received parameter"""
+	from httoop import Headers
+	from httoop.util import ByteUnicodeDict
+	hdr = c['hdr']
+	cls = header_class(hdr)
+	u, p = _h(c['u']), _h(c['p'])
+	extra = [(n, _h(v)) for n, v in c.get('extra', [])]
+	o = {}
+	# sending side
+	try:
+		src = c['src']
+		params = {'username': u, 'password': p}
+		params.update(extra)
+		if src == 'new':
+			el = cls(c['scheme'], params)
+		elif src == 'new_text':
+			el = cls(c['scheme'], {'username': c['text'][0], 'password': c['text'][1]})
+		elif src == 'create':
+			el = Headers().create_element(hdr, c['scheme'], {k.encode('utf-8'): v for k, v in params.items()})
+		elif src == 'replace':
+			el = cls(c['scheme'])
+			el.params = ByteUnicodeDict(params)
+		elif src == 'parsed':
+			el = cls.parse(c['scheme'].encode('ascii') + b' ' + b64_rfc4648(u + b':' + p))
+		else:
+			raise ValueError(src)
+		o['raised'] = observe_elem(el, c['obs'], c['target'])
+		mode = c['mode']
+		if mode == 'bytes':
+			field = bytes(el)
+		elif mode == 'compose':
+			field = el.compose()
+		elif mode == 'str':
+			field = str(el).encode('latin-1')
+		elif mode == 'hdr':
+			hs = Headers()
+			hs[hdr] = el
+			o['hraised'] = observe_hdrs(hs, hdr, c['hobs'])
+			field = hs.getbytes(hdr)
+			o['wire'] = bytes(hs).hex()
+		else:
+			raise ValueError(mode)
+		o['field'] = field.hex()
+		if c['obs']:  # and once more after having been composed: looked at again, composed again
+			observe_elem(el, c['obs'], c['target'])
+			o['field2'] = bytes(el).hex()
+	except Exception as exc:
+		o['err'], o['stage'] = err_of(exc), 'compose'
+	# receiving side: the field as RFC 7617 writes it (independent of what the sending side produced)
+	line = hdr.encode('ascii') + b': ' + _title(c['scheme']) + b' ' + b64_rfc4648(u + b':' + p)
+	o['line'] = line.hex()
+	try:
+		h2 = Headers()
+		h2.parse(line)
+		observe_hdrs(h2, hdr, c['hobs'])
+		e = h2.element(hdr)
+		observe_elem(e, c['obs'], c['target'])
+		o['back'] = elem_obs(e)
+		o['reads'] = read_all(e, ('username', 'password'), c['readers'])
+		o['after_pop'] = len(e.params)
+		observe_hdrs(h2, hdr, c['hobs'])
+		o['again'] = elem_obs(h2.element(hdr))
+		o['direct'] = elem_obs(cls.parse(line.partition(b': ')[2]))
+	except Exception as exc:
+		o['rerr'] = err_of(exc)
+	return o
+
+
 def observe(c):
 	from httoop import Headers
 	from httoop.authentication.basic import BasicAuthRequestScheme
@@ -646,6 +799,8 @@ def observe(c):
 		return {'steps': _observe_seq(c)}
 	if k == 'reenc':
 		return _observe_reenc(c)
+	if k == 'obs':
+		return _observe_obs(c)
 	if k == 'enc':
 		return {'ok': encode_base64(_h(c['d'])).hex()}
 	if k == 'dec':
@@ -749,6 +904,18 @@ def coq_case(c, o):
 			return None
 		back = o['back'] if 'back' in o else {'err': o['err']}
 		return 'CElemParse %s %s' % (X(v), coq_pres(back))
+	if k == 'obs':
+		# the compose after the observers against the model of a FRESH element with these data; the parse of the RFC 7617 field, read after the observers
+		out = []
+		su, sp = 'Some %s' % X(_h(c['u'])), 'Some %s' % X(_h(c['p']))
+		if 'field' in o:
+			out.append('CElemCompose %s (%s) (%s) (Ok %s)' % (X(c['scheme'].encode('ascii')), su, sp, X(_h(o['field']))))
+		elif o.get('stage') == 'compose':
+			out.append('CElemCompose %s (%s) (%s) (Err %s)' % (X(c['scheme'].encode('ascii')), su, sp, coq_err(o['err'])))
+		v = _h(o['line']).partition(b': ')[2]
+		if not _guard(v) and ('back' in o or 'rerr' in o):
+			out.append('CElemParse %s %s' % (X(v), coq_pres(o['back'] if 'back' in o else {'err': o['rerr']})))
+		return out or None
 	if k == 'rt':
 		if len(c['u']) + len(c['p']) > 2 * COQ_MAX:
 			return None  # the longest credentials (8190 .. 65536 octets) are oracle-only
@@ -773,6 +940,8 @@ def oracle(c, o):
 		return _oracle_seq(c, o)
 	if k == 'reenc':
 		return _oracle_reenc(c, o)
+	if k == 'obs':
+		return _oracle_obs(c, o)
 	if k != 'rt':
 		return None
 	u, p = _h(c['u']), _h(c['p'])
@@ -862,6 +1031,40 @@ def _oracle_reenc(c, o):
 	return None
 
 
+def _oracle_obs(c, o):
+	u, p = _h(c['u']), _h(c['p'])
+	if b':' in u:
+		return None
+	if 'text' in c and (c['text'][0].encode('utf-8') != u or c['text'][1].encode('utf-8') != p):
+		return 'harness: text and octets of the case differ'
+	looked = 'read-only observer(s) %s on %s%s%s' % (c['obs'] + ['Headers.' + n for n in c['hobs']], c['target'], ' (element from %s)' % c['src'],
+		', extra parameter(s) %s' % [n for n, _ in c['extra']] if c.get('extra') else '')
+	want = _title(c['scheme']) + b' ' + b64_rfc4648(u + b':' + p)
+	if 'field' not in o:
+		return '%s: %s raised %s (user %s, password %s)' % (looked, o.get('stage'), o.get('err'), c['u'][:40], c['p'][:40])
+	for key in ('field', 'field2'):
+		if key in o and _h(o[key]) != want:
+			return '%s before compose: composed %r, a fresh element with the same data (user %s, password %s) that nobody looked at gives %r' % (looked, _h(o[key])[:60], c['u'][:40], c['p'][:40], want[:60])
+	if 'wire' in o and _h(o['wire']) != c['hdr'].encode('ascii') + b': ' + want + b'\r\n\r\n':
+		return '%s: the header block is %r' % (looked, _h(o['wire'])[:80])
+	if 'rerr' in o:
+		return '%s on the receiving side: parsing %r raised %s' % (looked, _h(o['line'])[:80], o['rerr'])
+	for via in ('back', 'again', 'direct'):
+		fail = _check_parsed(o[via], u, p, '%s between Headers.element() and reading the parameters (%s) of %r' % (looked, via, _h(o['line'])[:80]))
+		if fail:
+			return fail
+	for name, got in sorted(o['reads'].items()):
+		key, how = name.split(':')
+		exp = u if key == 'username' else p
+		if how == 'attr' and not all(ch < 0x80 for ch in exp):
+			continue  # the .username / .password accessors decode with ASCII (observation in notes/reports/C16.md, outside the statement)
+		if got != exp.hex():
+			return '%s, then reading %s through %s of the parsed %r: got %s instead of %s' % (looked, key, how, _h(o['line'])[:80], got if isinstance(got, list) else got[:60], exp.hex()[:60])
+	if 'pop' in c['readers'] and o['after_pop'] != 0:
+		return '%s: %d parameter(s) left after both were popped' % (looked, o['after_pop'])
+	return None
+
+
 def classify(c, o, fail):
 	return None
 
@@ -869,7 +1072,7 @@ def classify(c, o, fail):
 def nontrivial(c, o):
 	if 'harness_exception' in o:
 		return None
-	if c['k'] in ('seq', 'reenc'):
+	if c['k'] in ('seq', 'reenc', 'obs'):
 		import json
 		return (c['k'], json.dumps(c, sort_keys=True))
 	return (c['k'], c.get('d'), c.get('u'), c.get('p'), c.get('info'), c.get('v'), c.get('scheme'), c.get('hdr'))
